@@ -70,6 +70,15 @@ CLAIMS["C16"] = (
     "building the same AST node. That all spellings run identically is not decided.",
     "comparison-constant closure with path-condition contexts + sibling relation agreement")
 
+CLAIMS["C02"] = (
+    "decides the tables, not the values: precedence (code vs manual text, three-way), left "
+    "associativity and recursion levels of the precedence climber, unary operators never folded "
+    "into literals, the composed chain token -> AST node -> opcode -> handler against a frozen "
+    "semantic table, postfix operand order by def-use, all 45 cells of the promotion lattice plus "
+    "27 comparator cells and the integer-only operators, relational results -1/0, typed store by "
+    "suffix and DEFtype. Numeric results and literal classification are not decided.",
+    "match-table extraction by resolved variant + lattice check + def-use ordering on MIR")
+
 NOT_APPLICABLE = {}
 
 
